@@ -56,7 +56,7 @@ for _v in DV.TREEINFO_VERSIONS:
     CLASS_FLOORS["accepted-treeinfo-" + _v] = 5
 CLASS_FLOORS.update({"fixtures-treeinfo": 60, "fixtures-discinfo": 50, "fixtures-images": 3, "fixtures-composeinfo": 2,
                      "legacy-prefix-children": 5, "legacy-product-section": 5, "images-src-moved": 5, "rpms-0.3-src": 5,
-                     "treeinfo-0.3-src-tree": 3, "treeinfo-0.0-legacy-image-section": 3, "treeinfo-0.0-blank-packagedir-with-repository": 3, "treeinfo-0.0-addons-in-id-named-sections": 10, "treeinfo-0.0-known-product-family": 10})
+                     "treeinfo-0.3-src-tree": 3, "treeinfo-0.0-legacy-image-section": 3, "treeinfo-0.0-blank-packagedir-with-repository": 3, "treeinfo-0.0-addons-in-id-named-sections": 10, "treeinfo-0.0-known-product-family": 10, "upgraded-in-place": 50})
 
 
 def plan(tier):
@@ -156,6 +156,32 @@ def upgrade_cycle(ctx, pms, fmt, textin, expected, case, version, key=None):
         if bad:
             ctx.violation("written-header-current", "the written header carries the current version and the proper type", case,
                           observed=[hv, ht], expected=[domains.CURRENT_VERSION, formats.HEADER_TYPE[fmt]])
+    if fmt != "discinfo" and len(textin) % 3 == 0:
+        # the upgrade a migration script does: load(PATH), dump(PATH) on the same path - afterwards the FILE is the
+        # current-version text
+        ipath = os.path.join(ctx.scratch, "c05-in-place")
+        try:
+            with open(ipath, "w", encoding="utf-8") as f:
+                f.write(textin)
+            o3 = formats.new_object(pms, fmt)
+            o3.load(ipath)
+            o3.dump(ipath)
+            with open(ipath, encoding="utf-8") as f:
+                onfile = f.read()
+            bad = onfile != t1
+            what = "the file still holds %s" % ("the old document" if onfile == textin else "something else") if bad else None
+        except Exception as e:
+            bad, what = True, "raised %s: %s" % (type(e).__name__, str(e)[:150])
+        finally:
+            try:
+                os.unlink(ipath)
+            except OSError:
+                pass
+        ctx.count("upgraded-in-place")
+        ctx.monitor("written-header-current", fired=bad)
+        if bad:
+            ctx.violation("written-header-current", "an accepted older document is always written back as a current-version file - also "
+                          "when it is written over the file it was read from", case, observed=what, expected="the current-version text")
     if fmt == "rpms":
         # the RPM manifest readers replace the object's content (both the current and the 0.3 one): a manifest loaded
         # into an object that was used for another compose before is the same conversion
